@@ -155,7 +155,7 @@ def _stale(target, sources):
     t = os.path.getmtime(target)
     return any(os.path.getmtime(s) > t for s in sources)
 
-def ocaml_build(name, extract_v, model_name, driver_ml, extra_srcs=()):
+def ocaml_build(name, extract_v, model_name, driver_ml, extra_srcs=(), zconv=True):
     """Extract `extract_v` (which writes <model_name>.ml in cwd) and link it with the driver."""
     d = os.path.join(BUILD, "ocaml", name)
     os.makedirs(d, exist_ok=True)
@@ -173,8 +173,10 @@ def ocaml_build(name, extract_v, model_name, driver_ml, extra_srcs=()):
         if rc != 0:
             return False, exe, out
         mod = model_name[0].upper() + model_name[1:]
-        open(os.path.join(d, "zconv.ml"), "w").write(open(zc).read().replace("@MODEL@", mod))
-        srcs = [model_name + ".mli", model_name + ".ml", "zconv.ml"]
+        srcs = [model_name + ".mli", model_name + ".ml"]
+        if zconv:
+            open(os.path.join(d, "zconv.ml"), "w").write(open(zc).read().replace("@MODEL@", mod))
+            srcs.append("zconv.ml")
         for s in list(extra_srcs) + [driver_ml]:
             open(os.path.join(d, s), "w").write(open(os.path.join(ROOT, "ocaml", s)).read())
             srcs.append(s)
